@@ -50,8 +50,8 @@ PLAN["C03"] = {
     "assumptions": COMMON_ASSUMPTIONS,
     "claim": "Every automaton of the finite domains; the size-shortcut shape (|reachable| = |rule owners| with different sets) is a mandatory outcome class.",
     "technique": "bounded exhaustive enumeration of automata against reference reachability/productivity fixpoints",
-    "quick": [("rel", "c03.n3s3pk4"), ("rel", "c03.n2s3k6")],
-    "thorough": [("rel", "c03.n3s3pk5"), ("rel", "c03.n2s3k7"), ("rel", "c03.n4agk4")],
+    "quick": [("rel", "c03.n3s3pk4"), ("rel", "c03.n2s3k6"), ("rel", "c03.n3afhk3"), ("rel", "c03.n4afhk3")],
+    "thorough": [("rel", "c03.n3s3pk5"), ("rel", "c03.n2s3k7"), ("rel", "c03.n4agk4"), ("rel", "c03.n3afhk3"), ("rel", "c03.n4afhk3")],
     "require": {"all": ["class_equal_counts_different_sets", "class_unreachable_rule_owner", "class_final_without_rules", "class_no_final", "lang_empty", "lang_nonempty"]},
 }
 
@@ -111,8 +111,8 @@ PLAN["C15"] = {
     "assumptions": COMMON_ASSUMPTIONS,
     "claim": "Every automaton of the finite domains; leaf-only languages, languages without accepted leaf and unproductive final states are mandatory outcome classes.",
     "technique": "bounded exhaustive enumeration of automata against reference inclusion/emptiness",
-    "quick": [("rel", "c15.n3s3pk4"), ("rel", "c15.n2s3k6")],
-    "thorough": [("rel", "c15.n3s3pk5"), ("rel", "c15.n2s3k7"), ("rel", "c15.n4agk4")],
+    "quick": [("rel", "c15.n3s3pk4"), ("rel", "c15.n2s3k6"), ("rel", "c15.n3afhk3"), ("rel", "c15.n4afhk3")],
+    "thorough": [("rel", "c15.n3s3pk5"), ("rel", "c15.n2s3k7"), ("rel", "c15.n4agk4"), ("rel", "c15.n3afhk3"), ("rel", "c15.n4afhk3")],
     "require": {"all": ["class_leaf_only_language", "class_no_leaf_accepted", "class_unproductive_final", "lang_empty"]},
 }
 
@@ -173,4 +173,23 @@ PLAN["C12"] = {
     "quick": [("rel", "c12.sat"), ("rel", "c12.d7")],
     "thorough": [("rel", "c12.sat"), ("rel", "c12.d9"), ("asan", "c12.d6")],
     "require": {"all": ["transitions_into_sharing_states"]},
+}
+
+PLAN["C17"] = {
+    "level": "exploration",
+    "rule": "v=3 variables, values {0,1,2}: all 243 diagrams M(asgn in {0,1,X}^3, value, default) + constants (construction, copy/assign/self-assign, 3 unary ops, VoidApply1); all ordered "
+            "pairs x 4 binary leaf operations incl. a non-commutative one (+VoidApply2); all triples of a 33-element sub-basis x 2 ternary ops and 18 depth-2 operation trees; ALL 6561 "
+            "functions {0,1}^3->{0,1,2}: GetPaths partition, Project (every variable subset x max/min), Rename (all order-preserving injections into 5 variables), ExtendWith, "
+            "GetMtbddForPrefix; ALL ordered pairs of ALL functions over 2 (quick) and 3 (thorough: 43M pairs) variables; v=4 in thorough. Oracle: value for EVERY total assignment equals "
+            "the pointwise result, and canonicity: one representative per function table is kept for the whole life of each worker process and operator== must hold for every later "
+            "diagram with the same table. Non-trivial = operands/functions not constant or not identical",
+    "assumptions": COMMON_ASSUMPTIONS + ["Project is checked with idempotent commutative combiners (max, min) as libvata uses it (set union); Rename only with order-preserving maps (its documented precondition); "
+                                        "GetMtbddForPrefix only with concrete prefixes", "history dependence inside one node store is covered by the per-worker persistent canonical table (different "
+                                        "VERIF_SEED values rotate the block order) and exhaustively for short histories by the C18 explorer"],
+    "claim": "Every diagram / pair / triple / function of the stated finite domains, checked on every total assignment, with canonicity checked against everything built earlier in the same process.",
+    "technique": "bounded exhaustive enumeration of MTBDD operands and operation trees against function tables",
+    "quick": [("rel", "c17.v3.base"), ("rel", "c17.v3.apply2"), ("rel", "c17.v3.trees"), ("rel", "c17.v3.allfn"), ("rel", "c17.v2.allpairs"), ("rel", "c17.v4.base"), ("rel", "c17.v4.apply2"), ("rel", "c17.v4.trees")],
+    "thorough": [("rel", "c17.v3.base"), ("rel", "c17.v3.apply2"), ("rel", "c17.v3.trees"), ("rel", "c17.v3.allfn"), ("rel", "c17.v2.allpairs"), ("rel", "c17.v4.base"), ("rel", "c17.v4.apply2"), ("rel", "c17.v4.trees"),
+                 ("rel", "c17.v3.allpairs"), ("asan", "c17.v3.apply2"), ("asan", "c17.v3.allfn")],
+    "require": {"all": ["apply1", "apply2", "apply3", "depth2", "project", "rename", "extend", "prefix", "getpaths"]},
 }
